@@ -134,6 +134,7 @@ def main(argv=None):
     seed = int(os.environ.get("VERIF_SEED", "0") or 0)
     t0 = time.time()
     prop = a.prop
+    os.environ["PYVC_TIER"] = a.tier        # the sidecar contracts widen their enumerated input shapes in the thorough tier
     try:
         registry = load_contracts()
     except Exception:
